@@ -5,9 +5,10 @@ cgls r2norm truthful / r1norm refuted, functional monotone).  The check
 compares returned tuples, cost histories, callback logs and Callbacks traces
 with the model inside Coq, evaluates the truthfulness clauses exactly on the
 implementation's own iterates, and compares lsqr's cost / norms with SciPy.
-OMP / MP diagnostics: harness/c10_omp.py."""
+OMP / MP diagnostics: harness/c10_omp.py; solver-object reuse: harness/c10_reuse.py."""
 from . import c09_common as cc
 from . import c10_omp
+from . import c10_reuse
 
 PID = "C10"
 PROPOSED_KNOWN = cc.PROPOSED_KNOWN
@@ -16,8 +17,18 @@ PROPOSED_KNOWN = cc.PROPOSED_KNOWN
 def replay(rp):
     if rp.get("solver") == "omp":
         return c10_omp.replay(rp)
+    if rp.get("kind") == "reuse":
+        return c10_reuse.replay(rp)
     return cc.replay(rp, cc.KINDS[PID])
 
 
+def _extra(R, tier):
+    ex = c10_omp.extra(R, tier)
+    ru = c10_reuse.extra(R, tier)
+    ex["more"] = [{"n": ru["n"], "ok": ru["ok"], "nontriv": ru["nontriv"],
+                   "cov": {"reuse_sequences": ru["n"], "reuse_sequences_ok": ru["ok"], "reuse_rule": ru["rule"], "reuse_sample": ru["sample"]}}]
+    return ex
+
+
 def main(tier):
-    return cc.report(PID, tier, extra=c10_omp.extra)
+    return cc.report(PID, tier, extra=_extra)
